@@ -87,6 +87,10 @@ impl Rng {
         &items[self.below(items.len())]
     }
 
+    pub fn pick_str<'a>(&mut self, items: &[&'a str]) -> &'a str {
+        items[self.below(items.len())]
+    }
+
     pub fn shuffle<T>(&mut self, items: &mut [T]) {
         for i in (1..items.len()).rev() {
             let j = self.below(i + 1);
